@@ -208,6 +208,13 @@ func siteExists(fn *ssa.Function, site string) bool {
 		}
 		k, _ := strconv.Atoi(w[1])
 		return k >= 1 && k <= n
+	case "exit":
+		// exit loop k: every edge that leaves the k-th loop
+		if len(w) != 3 || w[1] != "loop" {
+			return false
+		}
+		k, _ := strconv.Atoi(w[2])
+		return k >= 1 && k <= len(loopsOf(fn))
 	case "call":
 		if len(w) < 3 {
 			return false
